@@ -640,6 +640,14 @@ theorem int_ofNat_bne_one (n : Nat) : ((Int.ofNat n) != (1 : Int)) = (n != 1) :=
 theorem ne_null_eq_not_isNull (v : Val) : (v != Val.null) = !v.isNull := by
   cases v <;> simp [Val.isNull]
 
+theorem int_ofNat_beq_one (n : Nat) : ((Int.ofNat n) == (1 : Int)) = (n == 1) := by
+  have h := int_ofNat_bne_one n
+  simp only [bne] at h
+  cases h1 : (Int.ofNat n == (1 : Int)) <;> cases h2 : (n == 1) <;> simp_all
+
+theorem beq_null_eq_isNull (v : Val) : (v == Val.null) = v.isNull := by
+  cases v <;> simp [Val.isNull]
+
 /-- util.go:popListMapValue is the model's `popListMapValue`: `(value, rest, nil)`, or `(nil, nil, err)` -/
 theorem T_popListMapValue_eq (l : List Val) (k : String) :
     popListMapValue' l k = .ok (match popListMapValue l k with
@@ -654,7 +662,7 @@ theorem T_popListMapValue_eq (l : List Val) (k : String) :
     cases x with
     | map m =>
       simp only [popValueEntry] at hr
-      simp only [asMap, T_popMapValue_eq, ne_null_eq_not_isNull, int_ofNat_bne_one]
+      simp only [asMap, T_popMapValue_eq, beq_null_eq_isNull, int_ofNat_beq_one]
       by_cases h1 : m.length = 1
       · cases h2 : fget m k with
         | none => simp_all [fdel_of_not_mem h2]
@@ -666,7 +674,7 @@ theorem T_popListMapValue_eq (l : List Val) (k : String) :
     cases x with
     | map m =>
       simp only [popValueEntry] at he
-      simp only [asMap, T_popMapValue_eq, ne_null_eq_not_isNull, int_ofNat_bne_one]
+      simp only [asMap, T_popMapValue_eq, beq_null_eq_isNull, int_ofNat_beq_one]
       by_cases h1 : m.length = 1
       · cases h2 : fget m k with
         | none => simp_all
@@ -752,7 +760,7 @@ theorem T_popListMapBoolValue_eq (l : List Val) (k : String) (v : Bool) :
         simp only [popBoolEntry] at he
         simp only [asMap, T_popMapBoolValue_eq]
         cases hm : fhasBool m k v <;> simp_all
-        split at he <;> simp_all
+        split at he <;> simp_all [List.length_pos_iff]
       | _ => simp_all [popBoolEntry]
 
 /-! ## popListMapStringValue -/
@@ -799,7 +807,7 @@ theorem T_popListMapStringValue_eq (l : List Val) (k : String) :
         simp only [popStrEntry] at he
         simp only [asMap, T_popMapStringValue_eq]
         by_cases hm : fgetStr m k = "" <;> simp_all
-        split at he <;> simp_all
+        split at he <;> simp_all [List.length_pos_iff]
       | _ => simp_all [popStrEntry]
 
 /-! ### what the specification says, without errors -/
